@@ -122,9 +122,12 @@ def _py(v):
     return v
 
 
+_PROP_OVERRIDE = [None]
+
+
 def _viol(res, check, sig, config, inputs, observed, expected):
     res['status'] = VIOLATION
-    res['violations'].append(violation_record(PROP, check, sig, config, inputs, observed, expected,
+    res['violations'].append(violation_record(_PROP_OVERRIDE[0] or PROP, check, sig, config, inputs, observed, expected,
                                               replay_args=dict(check=check, config=config, inputs=inputs)))
 
 
@@ -381,7 +384,7 @@ def _concrete_specs(m, terms):
     return out
 
 
-def _set_harness(res, kinds, link, src, vdom, extra_claim=None, label=''):
+def _set_harness(res, kinds, link, src, vdom, extra_claim=None, label='', native_extra=None, prop=None):
     terms, pre = _specs_sym(kinds)
     v = sym_int('v') if vdom == 'int' else sym_real('v')
     v2 = sym_int('v2') if vdom == 'int' else sym_real('v2')
@@ -437,6 +440,8 @@ def _set_harness(res, kinds, link, src, vdom, extra_claim=None, label=''):
                                       (z3val(stored[src])-t_src[1].e)*(t[2].e-t[1].e))
                 else:
                     claims.append(z3.BoolVal(stored[i] is None))
+            if extra_claim is not None:
+                claims += extra_claim(terms, stored, src)
             m = h.prove(p, z3.And(*claims), f'stored values after set #{which+1}')
             if m not in (None, 'unknown'):
                 specs = _concrete_specs(m, terms)
@@ -457,7 +462,10 @@ def _set_harness(res, kinds, link, src, vdom, extra_claim=None, label=''):
                     want = min(max(x, 0 if sp[0] == 'd' else sp[1]), sp[1]-1 if sp[0] == 'd' else sp[2])
                     if stored_n[src] != want:
                         ok = False
-                    if not ok:
+                    if ok and native_extra is not None and not native_extra(specs, stored_n, src):
+                        _viol(res, 'set_des_var_value', dict(kind='linked_values_differ', harness=label), dict(link=link, src=src),
+                              dict(specs=specs, value=x), dict(stored=stored_n), 'linked variables carry the same index / relative position')
+                    elif not ok:
                         _viol(res, 'set_des_var_value', dict(kind='not_clamp', harness=label), dict(link=link, src=src),
                               dict(specs=specs, value=x), dict(stored=stored_n), dict(source=want))
                     else:
